@@ -17,7 +17,7 @@ RULE = ('a manifest of (program, predicate) entries per shard - generated progra
         'applications, every recursion mode incl. iterative plans with @Iteration and stop files, import trees, the same programs retargeted '
         'to psql / duckdb / bigquery / trino / clickhouse (type-checked dialects), integration_tests/*.l, a program carrying the experimental-syntax '
         'incantation and programs whose text parses differently under it (2*F(x)) - is compiled by fresh worker processes: with PYTHONHASHSEED '
-        '0,1,2,3 (quick) or 0..15 + 5 random (thorough), in three different orders (every entry then has different predecessors in its process), '
+        '0,1,2,3 (quick) or 0..7 + 4 more (thorough), in three different orders (every entry then has different predecessors in its process), '
         'with three LogicaProgram instances built from one parsed rules object (and a deep comparison of that object before / after), and with the '
         'C++ parser; one evaluation = one (entry, run); all runs of an entry must give byte-identical FormattedPredicateSql text and '
         'table_to_export_map after masking /tmp/logical_stop_<digits>_; distinct = hash(entry text, predicate, run kind); non-trivial = the SQL '
@@ -31,7 +31,7 @@ REPORT_COUNTERS = ['entries', 'runs', 'comparisons', 'identical', 'hash_seed_run
 
 def plan(tier, seed):
   return {'nshards': 16, 'timeout_s': 7200 if tier == 'thorough' else 1200,
-          'params': {'n_entries': 90 if tier == 'thorough' else 12, 'seeds': (list(range(16)) + [101, 977, 4242, 65537, 999983]) if tier == 'thorough' else [0, 1, 2, 3]}}
+          'params': {'n_entries': 40 if tier == 'thorough' else 12, 'seeds': (list(range(8)) + [101, 977, 65537, 999983]) if tier == 'thorough' else [0, 1, 2, 3]}}
 
 
 def prepare(tier, seed, out_dir):
